@@ -103,7 +103,7 @@ package fiber
 // ---- 1. prefix arithmetic: registering through a group is registering the spelled-out path -----------------
 // What register demands of its caller (C03-owned precondition lock-free): the application mutex is not held.
 // OnGroup hooks receive a COPY of the new group; the group itself is not reachable by anyone before it is returned.
-//@ func (*Hooks).executeOnGroupHooks assumed pure
+// (*Hooks).executeOnGroupHooks: checked contract in zz_contracts_rootassumed_verif.go (round B; it was `assumed pure` here).
 
 // Group.Add (Get, Post, ... All go through it): ONE direct registration, on the group's application, of the path
 // joined to the group prefix, with the handler list handler :: handlers; the route is never a mount marker
